@@ -24,7 +24,7 @@ RULE = ("run = pool of named games + 3-12 ops from {write input file in one of 5
 
 STEMS = ["in1", "My_Games_2", "x", "robot_1_w2_l2_r6", "A", "paper_games", "t_0", "cafe\u0301_7", "caf\u00e9_7", "\u2126_ohm"]
 GNAMES = ["g", "game_a", "game_b", "X1", "fig_5_5", "a", "b2", "Robot_47", "test", "n0", "big_reward", "z_9", "game_c", "G_", "_", "0", "Z"*3 + "_" + "9"*40, "no_prune", "UPPER_lower_123", "dise\u00f1o_2", "x_no_prune_v2", "odds_in_%_9", "rb10%%_lb5%", "grid{3x3}", "cell{n_states}"]
-DIRS = ["inputs", "inputs", "inputs", "other", "inputs/nested", "ABS"]
+DIRS = ["inputs", "inputs", "inputs", "other", "inputs/nested", "ABS", "."]
 EXTS = [".py", ".py", ".py", ".txt", ""]
 ENTRY_KEYS = ("msg", "n_states", "n_transitions", "n_iterations_reach", "n_iterations_rew",
               "reachability_strategies", "final_strategies", "probabilities", "prob_min_rew",
@@ -71,6 +71,10 @@ def gen(rng, tier, ctx):
         if rng.random() < 0.5:      # any stem over the property's alphabet [A-Za-z0-9_]
             stem = "".join(rng.choice(STEM_ALPHABET) for _ in range(rng.randint(1, 12)))
         paths.append((rng.choice(DIRS), stem, rng.choice(EXTS)))
+    if rng.random() < 0.25:
+        # the same file name in two folders (a copy that was edited), one of them possibly the working directory
+        d0, s0, e0 = paths[0]
+        paths.append((rng.choice([d_ for d_ in DIRS if d_ != d0]), s0, e0))
     if rng.random() < 0.02 or (tier == "thorough" and rng.random() < 0.02):
         return _gen_bigfile(rng, paths[0])
     opl = []
@@ -229,6 +233,8 @@ def _path(w, op):
     fn = op["stem"] + op.get("ext", ".py")
     if d == "ABS":
         return os.path.join(w.root, "abs_dir", fn), os.path.join("abs_dir", fn)
+    if d == ".":
+        return fn, fn               # a bare file name in the working directory
     return d + "/" + fn, os.path.join(d, fn)
 
 
